@@ -96,7 +96,7 @@ def rand_text(rng, n, cls="plain"):
 
 
 def acct_script(rng, cfg, scope, tag):
-    name = rng.choice(["alice", "alice", "bob", "carol", "frank", "erin", "nobody", ""])
+    name = rng.choice(["alice", "alice", "bob", "carol", "frank", "erin", "kate", "kate", "liam", "nobody", ""])
     flags = rng.choice([2, 4, 8, 10, 2, 4, 0, 6, 12, 14, 1, 255])
     cls = rng.choice(["plain", "plain", "pct", "quote", "ctl", "html"])
     nargs = rng.choice([0, 1, 2, 3, 5, 40, 255])
